@@ -146,3 +146,16 @@ Definition fmt_hex (w : nat) (x : N) : list N :=
   repeat 48 (w - length ds) ++ ds.
 Definition char_from_u32 (x : N) : option N :=
   if (x <? 55296) || ((57343 <? x) && (x <=? 1114111)) then Some x else None.
+
+(* i32::to_string (core::fmt's Display for integers): '-' in front of a negative number, then the decimal
+   digits, most significant first, no leading zero, "0" for 0 (a model of the standard library, tied to
+   the crate by the correspondence check of C09) *)
+Fixpoint dec_digits_ (fuel : nat) (n : Z) (acc : list N) : list N :=
+  match fuel with
+  | O => acc
+  | S f => let acc' := Z.to_N (48 + n mod 10) :: acc in
+           if (n <? 10)%Z then acc' else dec_digits_ f (n / 10)%Z acc'
+  end.
+Definition dec_fuel_ (n : Z) : nat := match n with Zpos p => Pos.size_nat p | _ => 1%nat end.
+Definition i32_to_string (z : Z) : list N :=
+  if (z <? 0)%Z then 45%N :: dec_digits_ (dec_fuel_ (- z)) (- z)%Z [] else dec_digits_ (dec_fuel_ z) z [].
